@@ -366,6 +366,10 @@ func (m *model) endBlock(T time.Time, h int64, got []outEv) string {
 				return ""
 			}
 		}
+		if t != nil && sameOut(got, []outEv{{typ: "group_transition_failed", incoming: t.incoming}}) {
+			m.fail("C18/dropped-before-exec-time", "transition dropped at height %d, block time %s is before ExecTime %s and nothing made it hopeless (%s)", h, T.Format(time.RFC3339), t.execTime.Format(time.RFC3339), m.describe())
+			return ""
+		}
 		m.check("end of block (nothing due)", got, nil)
 		return ""
 	}
